@@ -184,7 +184,20 @@ func (e *env) readAll(ks *tinkpb.Keyset, ad []byte) (acc []accepted, rejects int
 		h, err = keyset.ReadWithAssociatedData(&keyset.MemReaderWriter{EncryptedKeyset: proto.Clone(enc).(*tinkpb.EncryptedKeyset)}, kek, ad)
 	})
 	add("encrypted-mem", h, err)
-	// wrong associated data / truncated ciphertext: errors, no panic
+	// an EncryptedKeyset whose (unauthenticated) KeysetInfo contradicts the keyset: the info is ignored
+	// or the input rejected, the handle is well formed either way
+	liar := &tinkpb.EncryptedKeyset{EncryptedKeyset: ct, KeysetInfo: &tinkpb.KeysetInfo{PrimaryKeyId: ks.PrimaryKeyId + 1, KeyInfo: []*tinkpb.KeysetInfo_KeyInfo{nil, {TypeUrl: "x", Status: 9, KeyId: 1, OutputPrefixType: 9}}}}
+	e.guard("keyset.ReadWithAssociatedData(MemReaderWriter, contradicting KeysetInfo)", func() {
+		h, err = keyset.ReadWithAssociatedData(&keyset.MemReaderWriter{EncryptedKeyset: liar}, kek, ad)
+	})
+	add("encrypted-mem-contradicting-info", h, err)
+	// no EncryptedKeyset at all, wrong associated data, truncated ciphertext: errors, no panic
+	e.guard("keyset.Read(MemReaderWriter without EncryptedKeyset)", func() {
+		if hh, herr := keyset.Read(&keyset.MemReaderWriter{}, kek); herr == nil {
+			h, err = hh, nil
+			acc = append(acc, accepted{"encrypted-mem-nil", hh})
+		}
+	})
 	e.guard("keyset.ReadWithAssociatedData(wrong ad / truncated)", func() {
 		keyset.ReadWithAssociatedData(keyset.NewBinaryReader(bytes.NewReader(encBin)), kek, append([]byte{1}, ad...))
 		keyset.ReadWithAssociatedData(keyset.NewBinaryReader(bytes.NewReader(encBin[:len(encBin)/2])), kek, ad)
